@@ -11,13 +11,12 @@ namespace Ggql.Intro
 
 /-- the arms of the pinned tree where it departs from the specification -/
 def pinnedDev : GoT → MF → Option Arm
-  | .iface, .fields => some .fieldsAll                       -- D57: includeDeprecated ignored on interfaces
   | .object, .interfaces => some .interfacesPlain            -- D37: a plain []*Interface
   | .object, .name => some .nameOrSchema                     -- the nameless schema object says "schema": never reachable from a named type
   | .list, .name | .nonNull, .name => some .wrapperName      -- D53: wrappers carry a name
   | .list, .description => some (.const "LIST")              -- D53: … and a description
   | .nonNull, .description => some (.const "NON_NULL")
-  | .arg, .defaultValue | .inputField, .defaultValue => some .default   -- D52: raw default through String.CoerceOut
+  | .arg, .defaultValue | .inputField, .defaultValue => some .defaultMixed   -- D52 (narrowed): string defaults are given without their quotes (the suite expects `"defaultValue": "Who"`); other defaults as GraphQL text
   | _, _ => none
 
 def slotOK (tbl : ArmFn) (g : GoT) (mf : MF) : Bool :=
@@ -65,9 +64,10 @@ def wS : Schema :=
 
 def pinnedCfg : Cfg := { locate := specLocate, bareReason := "\"No longer supported\"" }
 
-/-- D57: an interface lists its deprecated field although `includeDeprecated` is false -/
-theorem C17_dev_iface_fields :
-    fetch pinnedCfg (armFnOf Gen.introTable) wS (.type (.named "Node")) .fields false ≠
+/-- D57 (repaired in /repo): an interface hides its deprecated field when `includeDeprecated` is false, like an
+object does — on the table regenerated from `Interface.Resolve` on this run -/
+theorem C17_iface_fields_filtered :
+    fetch pinnedCfg (armFnOf Gen.introTable) wS (.type (.named "Node")) .fields false =
     describe wS (.type (.named "Node")) .fields false := by decide +kernel
 
 /-- D53: a wrapper type answers `name` -/
@@ -75,11 +75,14 @@ theorem C17_dev_wrapper_name :
     fetch pinnedCfg (armFnOf Gen.introTable) wS (.type (.nonNull (.named "ID"))) .name false = .str "ID!" ∧
     describe wS (.type (.nonNull (.named "ID"))) .name false = .null := by decide +kernel
 
-/-- D52: an enum default is handed out raw (and `String.CoerceOut` then fails on it) -/
+/-- D52 (narrowed by the repair): an enum default is now given as GraphQL text; a string default still comes
+without its quotes -/
 theorem C17_dev_default :
     fetch pinnedCfg (armFnOf Gen.introTable) wS (.inval ⟨"a", "", .named "E", .sym "A"⟩ true) .defaultValue false
-      = .dflt (.sym "A") ∧ rawDefault (.sym "A") = (.null, 1) ∧ (textDefault (.sym "A")).2 = 0 := by
-  refine ⟨by decide +kernel, rfl, rfl⟩
+      = .text (.sym "A") ∧ (textDefault (.sym "A")) = (.str "A", 0) ∧
+    fetch pinnedCfg (armFnOf Gen.introTable) wS (.inval ⟨"a", "", .named "String", .str "Who"⟩ true) .defaultValue false
+      = .dflt (.str "Who") ∧ rawDefault (.str "Who") = (.str "Who", 0) ∧ textDefault (.str "Who") = (.str "\"Who\"", 0) := by
+  refine ⟨by decide +kernel, rfl, by decide +kernel, rfl, rfl⟩
 
 /-- D37: `interfaces` is a plain slice, so the current table is not `PlainFree` -/
 theorem C17_dev_any :
